@@ -778,6 +778,9 @@ const (
 
 func (g *GenConfig) genCall(t *rapid.T, feat *Feature) Block {
 	ops := activeOf([]byte{CALL, CALL, CALL, CALLCODE, DELEGATECALL, STATICCALL, STATICCALL}, g.Fork)
+	if g.EffectBias {
+		ops = activeOf([]byte{CALL, CALL, CALLCODE, DELEGATECALL, DELEGATECALL, STATICCALL, STATICCALL, STATICCALL}, g.Fork)
+	}
 	b := Block{Kind: KCall, Op: ops[Uniform(t, "call-op", len(ops))]}
 	markCall(feat, b.Op)
 	b.Target = g.drawTarget(t, "call-target", true)
